@@ -23,8 +23,8 @@ let kv key text =
   let p = key ^ "=" in
   List.fold_left (fun acc w -> match acc with Some _ -> acc | None -> if starts_with p w then Some (after p w) else None) None ws
 
-type tok = { mutable reqs : int; mutable cbs : (int * (string * string list)) list; mutable ret : string option;
-             mutable req_line : int; mutable api : string }
+type tok = { mutable reqs : int; mutable cbs : (int * ((string * string) * string list)) list; mutable ret : string option;
+             mutable req_line : int; mutable api : string; mutable pays : (int * string) list }
 
 (* frames that are containers / string helpers: not the place where an unwinding bug lives *)
 let generic_frame f =
@@ -59,6 +59,26 @@ let cb_parse rest =
       | _ -> s in
     Some (int_of_string st, strip pay)
 
+(* what is compared with the baseline (same as gen/allocgen.py payload_norm): no case, no
+   message id of a legacy answer buffer, no value of the EDNS COOKIE option (code 10) - all
+   three come from the random stream *)
+let strip_cookie s =
+  let n = String.length s in
+  let b = Buffer.create n in
+  let is_hex c = (c >= '0' && c <= '9') || (c >= 'a' && c <= 'f') || (c >= 'A' && c <= 'F') in
+  let i = ref 0 in
+  while !i < n do
+    if !i > 0 && (s.[!i - 1] = '{' || s.[!i - 1] = ',') && !i + 3 <= n && String.sub s !i 3 = "10~" then begin
+      Buffer.add_string b "10~*"; i := !i + 3;
+      while !i < n && is_hex s.[!i] do incr i done
+    end else begin Buffer.add_char b s.[!i]; incr i end
+  done;
+  Buffer.contents b
+
+let payload_norm pay =
+  let pay = strip_cookie pay in
+  String.lowercase_ascii (String.concat " " (List.filter (fun w -> not (starts_with "id=" w)) (String.split_on_char ' ' pay)))
+
 (* members of a result set that a partial answer could be missing (same as gen/allocgen.py) *)
 let payload_items pay =
   let between a b =
@@ -80,14 +100,23 @@ let payload_items pay =
   | None | Some "" -> []
   | Some b -> List.map (fun x -> String.sub (Digest.to_hex (Digest.string x)) 0 4) (String.split_on_char ',' b)
 
-(* baseline expectations: i<rc>,t<T>/<ret>/<st>.<dig>+...,a<NAME>.<rc> *)
-type expect = { e_init : int; e_toks : (int * (string * (int * (string * string list)) list)) list; e_api : (string * int) list }
+(* baseline expectations: i<rc>,t<T>/<ret>/<st>.<payload digest>:<dialogue digest>~<item>~..+...,a<NAME>.<rc> *)
+let split_dg dg = match String.index_opt dg ':' with
+  | Some i -> (String.sub dg 0 i, String.sub dg (i + 1) (String.length dg - i - 1))
+  | None -> (dg, "?")
+
+type expect = { e_init : int; e_toks : (int * (string * (int * ((string * string) * string list)) list)) list; e_api : (string * int) list;
+                e_dlg : string list }
 
 let parse_expect s =
   let items = String.split_on_char ',' s in
-  let init = ref 0 and toks = ref [] and api = ref [] in
+  let init = ref 0 and toks = ref [] and api = ref [] and dlg = ref [] in
   List.iter (fun it ->
     if it = "" then ()
+    else if it.[0] = 'd' then begin
+      let b = after "d" it in
+      dlg := List.init (String.length b / 4) (fun i -> String.sub b (4 * i) 4)
+    end
     else if it.[0] = 'i' then init := int_of_string (after "i" it)
     else if it.[0] = 't' then begin
       match String.split_on_char '/' (after "t" it) with
@@ -95,9 +124,9 @@ let parse_expect s =
         let cbl = if cbs = "-" then [] else
             List.map (fun c -> match String.split_on_char '.' c with
                 | [st; d] -> (match String.split_on_char '~' d with
-                    | dg :: items -> (int_of_string st, (dg, items))
-                    | [] -> (int_of_string st, (d, [])))
-                | _ -> (-999, ("", []))) (String.split_on_char '+' cbs) in
+                    | dg :: items -> (int_of_string st, (split_dg dg, items))
+                    | [] -> (int_of_string st, (split_dg d, [])))
+                | _ -> (-999, (("", "?"), []))) (String.split_on_char '+' cbs) in
         toks := (int_of_string t, (ret, cbl)) :: !toks
       | _ -> ()
     end else if it.[0] = 'a' then begin
@@ -105,7 +134,7 @@ let parse_expect s =
       | [k; rc] -> api := (k, int_of_string rc) :: !api
       | _ -> ()
     end) items;
-  { e_init = !init; e_toks = List.rev !toks; e_api = List.rev !api }
+  { e_init = !init; e_toks = List.rev !toks; e_api = List.rev !api; e_dlg = !dlg }
 
 
 (* ---------------- DIFF: the request-submission model (coq/Alloc/SendAlloc.v) ---------------- *)
@@ -223,14 +252,26 @@ let () =
       let order = ref [] in
       let get t = match Hashtbl.find_opt toks t with
         | Some x -> x
-        | None -> let x = { reqs = 0; cbs = []; ret = None; req_line = -1; api = "?" } in
+        | None -> let x = { reqs = 0; cbs = []; ret = None; req_line = -1; api = "?"; pays = [] } in
           Hashtbl.add toks t x; order := t :: !order; x in
       let init = ref None and expect = ref None and scen = ref "?" in
       let reinit_stuck = ref false in
       let failline = ref (-1) and failsite = ref "" and leaks = ref [] in
       let live = ref None and pending = ref 0 and dups = ref 0 in
       let api = ref [] and monitor = ref false and ended = ref false in
+      (* the network dialogue so far: questions put on the wire, datagrams / segments read
+         (the same items and digest as gen/allocgen.py dialogue_item) *)
+      let dlg = ref [] in
+      let dlg_add it = dlg := String.sub (Digest.to_hex (Digest.string it)) 0 4 :: !dlg in
       List.iteri (fun li l ->
+        if starts_with "TX " l then begin
+          let g k = match kv k l with Some v -> v | None -> "?" in
+          dlg_add (Printf.sprintf "T%s/%s/%s/%s" (g "srv") (g "proto") (String.lowercase_ascii (g "qname")) (g "qtype"))
+        end else if starts_with "RECVFROM " l then begin
+          match kv "rc" l with
+          | Some v -> (match int_of_string_opt v with Some n when n > 0 -> dlg_add ("R" ^ v) | _ -> ())
+          | None -> ()
+        end;
         if starts_with "INIT rc=" l then init := Some (int_of_string (after "INIT rc=" l))
         else if starts_with "OP " l && find_sub l " note s=" <> None then begin
           (match kv "s" l with Some s -> scen := s | None -> ());
@@ -254,7 +295,8 @@ let () =
           | Some i ->
             let t = int_of_string (String.sub r 0 i) in
             (match cb_parse (String.sub r (i + 1) (String.length r - i - 1)) with
-             | Some (st, pay) -> let x = get t in x.cbs <- x.cbs @ [(st, (md5_8 pay, payload_items pay))]
+             | Some (st, pay) -> let x = get t in x.cbs <- x.cbs @ [(st, ((md5_8 (payload_norm pay), String.concat "" (List.rev !dlg)), payload_items pay))];
+               x.pays <- x.pays @ [(st, pay)]
              | None -> ())
         end
         else if starts_with "REINIT " l && (match kv "stuck" l with Some "1" -> true | _ -> false) then reinit_stuck := true
@@ -312,8 +354,21 @@ let () =
           let mk t =
             let x = Hashtbl.find toks t in
             let (bret, bcbs) = match List.assoc_opt t e.e_toks with Some v -> v | None -> ("v", []) in
-            let same = List.for_all (fun (st, (d, _)) ->
-                st <> 0 || List.exists (fun (bs, (bd, _)) -> bs = 0 && bd = d) bcbs) x.cbs in
+            let same = List.for_all (fun (st, ((d, _), _)) ->
+                st <> 0 || List.exists (fun (bs, ((bd, _), _)) -> bs = 0 && bd = d) bcbs) x.cbs in
+            (* every successful callback was reached without asking a question or reading a datagram
+               that the baseline run did not ask / read before its callback *)
+            let items b = List.init (String.length b / 4) (fun i -> String.sub b (4 * i) 4) in
+            let rec take n l = if n <= 0 then [] else match l with [] -> [] | y :: r -> y :: take (n - 1) r in
+            let rec subseq a b = match a, b with
+              | [], _ -> true
+              | _, [] -> false
+              | y :: ra, z :: rb -> if y = z then subseq ra rb else subseq a rb in
+            let same_dlg = List.for_all (fun (st, ((_, dl), _)) ->
+                st <> 0 || List.exists (fun (bs, ((_, bn), _)) ->
+                    bs = 0 && (match int_of_string_opt bn with
+                        | Some n -> subseq (items dl) (take n e.e_dlg)
+                        | None -> false)) bcbs) x.cbs in
             let strict_part a b = a <> b && List.for_all (fun i -> List.mem i b) a
                                   && List.length a < List.length b in
             let partial = List.exists (fun (st, (_, items)) ->
@@ -330,7 +385,8 @@ let () =
             { t_id = zi t; t_reqs = nat_of_int x.reqs; t_cb = List.map (fun (s, _) -> zi s) x.cbs;
               t_ret = ropt x.ret; t_base_cb = List.map zi base_cbs;
               t_base_ret = (if scripted then ropt x.ret else ropt (Some bret)); t_payload_same = same; t_partial = partial;
-              t_after_failure = (not scripted) && (t = fresh_token) && (!failline < 0 || !failline < x.req_line) } in
+              t_after_failure = (not scripted) && (t = fresh_token) && (!failline < 0 || !failline < x.req_line);
+              t_same_dialogue = same_dlg } in
           (* set-up calls log their status only when they fail, so the failing run may show
              more lines than the baseline: the surplus comes first and is judged against 0 *)
           let extras = max 0 (List.length api - List.length e.e_api) in
@@ -368,6 +424,12 @@ let () =
             | VPartialResult t ->
               let a = tok_api t in
               emit ("partial-result:" ^ (if a = "gai" || a = "ghbn" then "getaddrinfo" else a)) (detail ("token=t" ^ string_of_z t ^ " api=" ^ a))
+            | VWrongResult t ->
+              let x = Hashtbl.find toks (int_of_z t) in
+              let a = x.api in
+              let fam = if a = "gai" || a = "ghbn" then "getaddrinfo" else a in
+              emit ("wrong-result:" ^ fam) (detail (Printf.sprintf "token=t%s api=%s: ARES_SUCCESS with a result other than without failure, although the run asked no question and read no datagram beyond those of the run without failure: [%s]" (string_of_z t) a
+                                                      (String.concat " / " (List.filter_map (fun (st, p) -> if st = 0 then Some p else None) x.pays))))
             | VUnusable t -> emit ("unusable:" ^ fkey) (detail ("token=t" ^ string_of_z t))
             | VBadInit st -> emit (Printf.sprintf "bad-init-%s:%s" (string_of_z st) fkey) (detail "")
             | VBadApi (st, b) -> emit ("bad-api:" ^ fkey) (detail (Printf.sprintf "rc=%s baseline=%s" (string_of_z st) (string_of_z b)))
@@ -381,7 +443,7 @@ let () =
               let sts = List.concat_map (fun t -> List.map fst (Hashtbl.find toks t).cbs) (List.rev !order) in
               let same_all = List.for_all (fun t -> let x = Hashtbl.find toks t in
                   match List.assoc_opt t e.e_toks with
-                  | Some (_, bcbs) -> List.map (fun (s, (d, _)) -> (s, d)) x.cbs = List.map (fun (s, (d, _)) -> (s, d)) bcbs
+                  | Some (_, bcbs) -> List.map (fun (s, ((d, _), _)) -> (s, d)) x.cbs = List.map (fun (s, ((d, _), _)) -> (s, d)) bcbs
                   | None -> false) (List.rev !order) in
               let bsts = List.concat_map (fun (_, (_, cbs)) -> List.map fst cbs) e.e_toks in
               let news = List.filter (fun st -> not (List.mem st bsts)) sts in
